@@ -19,6 +19,7 @@ import (
 const (
 	KindYield = iota
 	KindLock
+	KindYieldSync // a yield in front of a synchronisation operation (lock, channel, select, go)
 )
 
 // Waiter is one parked goroutine.
@@ -87,6 +88,15 @@ func Yield(site string) {
 	s.park(site, KindYield, 0)
 }
 
+// YieldSync is Yield in front of a synchronisation operation.
+func YieldSync(site string) {
+	s := cur.Load()
+	if s == nil || s.off.Load() || s.isDriver() {
+		return
+	}
+	s.park(site, KindYieldSync, 0)
+}
+
 // Lock replaces x.Lock() / x.RLock(): try is x.TryLock / x.TryRLock.
 func Lock(try func() bool, site string) {
 	for {
@@ -140,7 +150,7 @@ func (s *Sched) Waiters() []*Waiter {
 
 // Runnable reports whether resuming w can make progress now.
 func (s *Sched) Runnable(w *Waiter) bool {
-	return w.Kind == KindYield || s.epoch.Load() != w.Epoch
+	return w.Kind != KindLock || s.epoch.Load() != w.Epoch
 }
 
 // Resume lets one parked goroutine continue.
